@@ -6,7 +6,6 @@
 package cli
 
 import (
-	"unicode/utf8"
 	"bytes"
 	"encoding/json"
 	"fmt"
@@ -16,6 +15,7 @@ import (
 	"sort"
 	"strings"
 	"testing"
+	"unicode/utf8"
 
 	classifier "github.com/google/licenseclassifier/v2"
 	"github.com/google/licenseclassifier/v2/assets"
@@ -61,14 +61,14 @@ func fileSets() map[string][]fileSpec {
 		crowd = append(crowd, fileSpec{fmt.Sprintf("d%02d/f%04d.txt", i%23, i), body})
 	}
 	return map[string][]fileSpec{
-		"crowd":           crowd,
-		"licensed":        {{"LICENSE", "Some project\n\n" + mit}},
+		"crowd":    crowd,
+		"licensed": {{"LICENSE", "Some project\n\n" + mit}},
 		// sizes around the line reader's buffer (32 / 64 KiB): a 35 KB license without a final line
 		// break, and a license that starts behind 70 KB of other lines
 		"big-no-trailing-nl": {{"COPYING", "This program comes with a copy of the license.\n\n" + strings.TrimRight(read("License/GPL-3.0/license.txt"), "\n") + "\n\n" + strings.TrimRight(strings.Repeat("appendix line without meaning\n", 40), "\n")}},
 		"license-after-64k":  {{"NOTES", strings.Repeat("some unrelated line of notes that fills the file\n", 1330) + mit + "\n" + strings.Repeat("more unrelated lines behind the license text\n", 1600)}},
-		"latin1":          {{"LICENSE", "Copyright \xa9 2020 Foo GmbH, M\xfcnchen\n\n" + mit + "\nGr\xfc\xdfe\n"}},
-		"unlicensed":      {{"README", "just words, nothing else\nsecond line\n"}},
+		"latin1":             {{"LICENSE", "Copyright \xa9 2020 Foo GmbH, M\xfcnchen\n\n" + mit + "\nGr\xfc\xdfe\n"}},
+		"unlicensed":         {{"README", "just words, nothing else\nsecond line\n"}},
 		// byte-identical files in several places (vendored copies), whose first match is a header
 		"duplicates": {{"a/NOTICE", apacheHdr + "\n\n" + mit}, {"b/vendor/x/NOTICE", apacheHdr + "\n\n" + mit}, {"c/NOTICE", apacheHdr + "\n\n" + mit}, {"d/main.go", "// " + strings.ReplaceAll(strings.TrimRight(apacheHdr, "\n"), "\n", "\n// ") + "\npackage main\n"}, {"e/main.go", "// " + strings.ReplaceAll(strings.TrimRight(apacheHdr, "\n"), "\n", "\n// ") + "\npackage main\n"}},
 		// symbolic links to files (a vendored copy pointing at the top-level license): a file like any other
@@ -77,7 +77,7 @@ func fileSets() map[string][]fileSpec {
 		"notice-positions": {{"head.txt", "Copyright 2019 First Holder\n" + mit}, {"tail.txt", mit + "\nCopyright 2020 Last Holder\n"}, {"date.txt", mit + "\n\n2020-01-02\n"}, {"tail-blank.txt", mit + "\nCopyright 2021 Somebody\n\n\n"}, {"both.txt", "2001-02-03\n" + bsd + "\nCopyright (c) 2022 Z\n"}},
 		// run with -ignore_paths_re '.*/AUTHORS' (a FILE pattern): only that file is left out, not what
 		// follows it in its directory
-		"ignore-authors": {{"proj/AUTHORS", "Copyright 2019 A. Uthor\n" + bsd}, {"proj/LICENSE", mit}, {"proj/NOTES.txt", "plain\n"}, {"proj/third_party/lib/COPYING", bsd}, {"proj/zeta/AUTHORS", "nobody\n"}, {"proj/zeta/LICENSE", mit}},
+		"ignore-authors":  {{"proj/AUTHORS", "Copyright 2019 A. Uthor\n" + bsd}, {"proj/LICENSE", mit}, {"proj/NOTES.txt", "plain\n"}, {"proj/third_party/lib/COPYING", bsd}, {"proj/zeta/AUTHORS", "nobody\n"}, {"proj/zeta/LICENSE", mit}},
 		"nested":          {{"a/b/LICENSE", mit}, {"a/c/NOTES", "plain text\n"}, {"a/b/d/COPYING", bsd}},
 		"no-trailing-nl":  {{"LICENSE", strings.TrimRight(mit, "\n")}},
 		"crlf":            {{"LICENSE", strings.ReplaceAll("intro line\n"+mit, "\n", "\r\n")}},
@@ -406,7 +406,6 @@ func c12Default(c *vrep.Ctx) {
 		}
 	})
 }
-
 
 func render0(r classifier.Results) string {
 	var sb strings.Builder
